@@ -50,7 +50,9 @@ def cases(draw, tier):
     spec = draw(gen.h5_table_specs(tier, poke=True))
     return {"table": spec,
             "compress": draw(st.booleans()),
-            "writer": draw(st.sampled_from(["to_hdf5", "save_table"])),
+            "writer": draw(st.sampled_from(["to_hdf5", "save_table",
+                                            "to_hdf5", "save_table",
+                                            "to_hdf5_group"])),
             "reader": draw(st.sampled_from(["load_table", "parse_table",
                                             "from_hdf5"])),
             "generated_by": draw(gen._H5TEXT1),
@@ -88,7 +90,13 @@ def write(t, path, case):
     import h5py
     from biom.parse import save_table
     date = date_from_json(case["date"])
-    if case["writer"] == "to_hdf5":
+    if case["writer"] == "to_hdf5_group":
+        # into a group of a file that holds something else as well
+        with h5py.File(path, "w") as f:
+            f.create_group("tables/other").attrs["id"] = "not this one"
+            t.to_hdf5(f.create_group("tables/one"), case["generated_by"],
+                      compress=case["compress"], creation_date=date)
+    elif case["writer"] == "to_hdf5":
         with h5py.File(path, "w") as f:
             t.to_hdf5(f, case["generated_by"], compress=case["compress"],
                       creation_date=date)
@@ -97,10 +105,13 @@ def write(t, path, case):
                    compress=case["compress"], creation_date=date)
 
 
-def read(path, how):
+def read(path, how, group=None):
     import h5py
     from biom import load_table, Table
     from biom.parse import parse_biom_table
+    if group is not None:
+        with h5py.File(path, "r") as f:
+            return Table.from_hdf5(f[group])
     if how == "load_table":
         return load_table(path)
     with h5py.File(path, "r") as f:
@@ -139,7 +150,8 @@ def check(case, rec):
         if after_write != src:
             raise Violation("writer-changed-source", "%r -> %r" %
                             (src, after_write))
-        r = read(path, case["reader"])
+        grp = "tables/one" if case["writer"] == "to_hdf5_group" else None
+        r = read(path, case["reader"], grp)
         got = observe.snapshot(r)
         observe.check_lookups(r, got, "loaded table")
         got_gmd = {a: dict(r.group_metadata(a) or {})
@@ -158,7 +170,7 @@ def check(case, rec):
             src2 = observe.snapshot(t2)
             os.remove(path)
             write(t2, path, case)
-            got2 = observe.snapshot(read(path, case["reader"]))
+            got2 = observe.snapshot(read(path, case["reader"], grp))
             for k in ("obs", "samp", "rows"):
                 if got2[k] != src2[k]:
                     raise Violation("stale-read-after-rewrite", "after "
